@@ -68,7 +68,7 @@ CurvedIn(fam, rule, type, t, lin, cur, noff) ==
 RECURSIVE LastTrue(_, _)
 LastTrue(Pred(_), i) == IF i > 60 THEN 60 ELSE IF Pred(i) THEN LastTrue(Pred, i + 1) ELSE i - 1
 \* all tuples bounded per dimension by bnd
-BoxUpTo(d, bnd) == LET m == MaxEntry({bnd}) IN {t \in Cube(d, m) : \A j \in 1..d : t[j] <= bnd[j]}
+BoxUpTo(d, bnd) == IF \E j \in 1..d : bnd[j] < 0 THEN {} ELSE LET m == MaxEntry({bnd}) IN {t \in Cube(d, m) : \A j \in 1..d : t[j] <= bnd[j]}
 
 \* region grown from the origin through children that satisfy Crit (generateGeneralMultiIndexSet), inside the cube 0..cap
 RECURSIVE Grow(_, _, _, _)
@@ -76,7 +76,9 @@ Grow(region, frontier, Crit(_), cap) ==
     LET next == {q \in UNION {Succs(p) : p \in frontier} : (\A j \in 1..Len(q) : q[j] <= cap) /\ q \notin region /\ Crit(q)}
     IN IF next = {} THEN region ELSE Grow(region \cup next, next, Crit, cap)
 
+\* (the origin is always selected: the enumeration of the library starts from it without testing it)
 SelectTensors(fam, rule, d, depth, type, aw, ll) ==
+    {[j \in 1..d |-> 0]} \cup
     IF type \in TensorTypes THEN
         LET maxe == [j \in 1..d |-> (IF aw = <<>> THEN 1 ELSE aw[j]) * depth]
             np   == [j \in 1..d |-> LET n == FirstLevel(fam, rule, type, maxe[j], 0) + 1
